@@ -569,12 +569,14 @@ def finish(chk, level="model_checking"):
                 known_printed.setdefault(hit["key"], (hit, path))
             else:
                 violations.append((cex, path))
+        elif res.get("violates") is None and res.get("inconclusive"):
+            chk.inconclusive.append("%s: %s" % (cex.get("vc"), res["inconclusive"]))
         elif res.get("violates") is False:
             harness_err.append("counterexample for %s did not reproduce on the real code: %s" % (cex.get("vc"), json.dumps(res)[:400]))
         else:
             harness_err.append("replay failed for %s: %s" % (cex.get("vc"), json.dumps(res)[:400]))
     nsat = sum(1 for v in chk.vcs if v["result"] == "sat")
-    if nsat and not chk.counterexamples:
+    if nsat and not chk.counterexamples and not chk.inconclusive:
         harness_err.append("%d verification condition(s) are satisfiable but no replayable counterexample was produced" % nsat)
     wall = time.time() - chk.t0
     # evidence
